@@ -159,3 +159,49 @@ func VerifC12Timer() {
 	_ = fired
 	vapi.Reach("timer-end")
 }
+
+// VerifC12CloseFault: teardown paths on which the pool-wide closeAll does not run or does not cover a connection:
+// (0) Session.Close while one connection has just been reset (the closing notice may fail to be written),
+// (1) a connection attached just after the session was torn down and then dropped by the peer,
+// (2) the peer closes the session while one of our connections has just been reset.
+// In each, both sessions end up closed and every connection of the session ends up closed locally.
+func VerifC12CloseFault() {
+	vapi.RandZero(true)
+	nconn := vapi.Param("conns", 2)
+	net := vPair(0, nconn, false, false)
+	cl, _ := net.cs.OpenStream()
+	var srv *Stream
+	go func() { c, _ := net.ss.Accept(); srv = c.(*Stream) }()
+	cl.Write(vapi.Bytes("hello", 1))
+	net.run()
+	vapi.Assert(srv != nil, "C12: stream established")
+	var late *vconn.Conn
+	scenario := vapi.Pick("scenario", 3)
+	switch scenario {
+	case 0:
+		net.cc[vapi.Pick("which", nconn)].Reset()
+		net.cs.Close()
+	case 1:
+		net.cs.Close()
+		net.run()
+		a, b := vconn.Pipe(true)
+		a.Hold, b.Hold = true, true
+		late = a
+		net.cs.AddConnection(a)
+		vapi.Quiesce()
+		b.Close()
+	case 2:
+		net.cc[vapi.Pick("which", nconn)].Reset()
+		net.ss.Close()
+	}
+	net.run()
+	vapi.Assert(net.cs.IsClosed() && net.ss.IsClosed(), "C12: both ends of the session are closed")
+	vapi.Assert(c12AllClosed(net.cc), "C12: all of the session's connections end up closed (closing side)")
+	vapi.Assert(c12AllClosed(net.sc), "C12: all of the session's connections end up closed (other side)")
+	if late != nil {
+		vapi.Assert(late.Closed, "C12: a connection attached to a session that was just torn down ends up closed")
+	}
+	blocked := vapi.WouldBlock(func() { srv.Read(make([]byte, 4)) })
+	vapi.Assert(!blocked, "C12: readers are not left blocked")
+	vapi.Reach("closefault-end")
+}
